@@ -555,9 +555,11 @@ func runC10E2E(t *testing.T, x c10E2E, verbose bool) (c vfCase) {
 						c.fail("cwnd-exceeded", "t=%v side %d: new DATA tsn=%d (%d bytes) sent with %d bytes already outstanding: %d > cwnd %d", ev.T, X, ch.TSN, len(ch.Data), before, outstanding[X], cw)
 					}
 					lim := lastARwnd[X]
-					if ev.T == sackAt[X] && prevARwnd[X] > lim {
-						// sent in the very instant in which the latest SACK was handed to the endpoint: it may
-						// still be working on it (a callback runs in the middle); the previous window counts
+					if d := ev.T - sackAt[X]; d >= 0 && d <= 50*time.Microsecond && prevARwnd[X] > lim {
+						// sent while the endpoint may still be working on the latest SACK: a callback runs in
+						// the middle of its processing, and callbacks that sleep a microsecond each (one per
+						// stream with newly acknowledged bytes) stretch that over a few microseconds of
+						// virtual time (packets take 10 ms): the previous window counts
 						lim = prevARwnd[X]
 					}
 					if outstanding[X] > lim {
